@@ -60,7 +60,21 @@ func scenariosFor(prop string) []scn {
 		both(flowParams{Sources: 2, Records: 2, Batch: 1, Dests: 1, AckMenu: onlyOK, Stop: "stopwait", Faults: true}, 1, 2)
 		both(flowParams{Sources: 1, Records: 3, Batch: 1, Dests: 2, AckMenu: okNack, Stop: "stopwait", Bundle: 2}, 2, 3)
 		both(flowParams{Sources: 1, Records: 4, Batch: 2, Dests: 1, AckMenu: onlyOK, Stop: "force", Faults: true, Bundle: 3}, 1, 2)
+		// a flush whose commit stays in flight while later acks arrive and the run is stopped (force / graceful): a second
+		// flush must not overtake it
+		both(flowParams{Sources: 1, Records: 3, Batch: 1, Dests: 1, AckMenu: onlyOK, Stop: "force", Bundle: 2, LateCommit: true}, 2, 3)
+		both(flowParams{Sources: 1, Records: 3, Batch: 1, Dests: 1, AckMenu: onlyOK, Stop: "stopwait", Bundle: 2, LateCommit: true}, 1, 2)
 		both(flowParams{Sources: 1, Records: 3, Batch: 1, Dests: 1, AckMenu: onlyOK, Procs: []procParam{{ID: "pp", Kinds: []string{"p", "f", "p"}}}}, 1, 2)
+		// a processor rejects a later record while an earlier one still waits for its destination (which may reject it too):
+		// dead-lettering and the nack window must follow source order, not arrival order
+		both(flowParams{Sources: 1, Records: 2, Batch: 1, Dests: 1, AckMenu: okNack, Procs: []procParam{{ID: "pp", Kinds: []string{"p", "e"}}}}, 2, 3)
+		both(flowParams{Sources: 1, Records: 2, Batch: 1, Dests: 1, AckMenu: okNack, Window: 2, Thresh: 1, Procs: []procParam{{ID: "pp", Kinds: []string{"p", "e"}}}}, 2, 3)
+		// a source plugin that is slow to take acks off its stream while later flushes release more acks
+		both(flowParams{Sources: 1, Records: 4, Batch: 1, Dests: 1, AckMenu: onlyOK, Bundle: 2, LateAckRecv: true}, 1, 2)
+		both(flowParams{Sources: 1, Records: 4, Batch: 2, Dests: 1, AckMenu: onlyOK, LateCommit: true, LateAckRecv: true}, 1, 2)
+		// two chained processors, the first leaves a hole of adjacent filtered / dead-lettered records inside one batch
+		both(flowParams{Sources: 1, Records: 6, Batch: 6, Dests: 1, AckMenu: onlyOK, Procs: []procParam{{ID: "p1", Kinds: []string{"p", "f", "f", "p", "p", "p"}}, {ID: "p2"}}}, 1, 2)
+		both(flowParams{Sources: 1, Records: 6, Batch: 6, Dests: 2, AckMenu: onlyOK, Procs: []procParam{{ID: "p1", Kinds: []string{"p", "e", "e", "p", "f", "p"}}, {ID: "p2", Kinds: []string{"p", "p", "p", "f", "p", "p"}}}}, 1, 2)
 	}
 	switch prop {
 	case "SMOKE":
@@ -152,6 +166,9 @@ func scenariosFor(prop string) []scn {
 		both(flowParams{Sources: 1, Records: 3, Batch: 1, Dests: 1, AckMenu: []string{"ok", "defer"}, Stop: "stopwait"}, 2, 4)
 		both(flowParams{Sources: 1, Records: 3, Batch: 1, Dests: 1, AckMenu: onlyOK, Stop: "stopwait", Procs: []procParam{{ID: "pp", Workers: 1, Gate: true, Kinds: []string{"p", "f", "p"}}}}, 2, 3)
 		both(flowParams{Sources: 1, Records: 3, Batch: 1, Dests: 1, AckMenu: onlyOK, Stop: "stopwait", Bundle: 2}, 2, 3)
+		// system shutdown: StopAll (a graceful stop that carries a reason) followed by Wait
+		both(flowParams{Sources: 1, Records: 3, Batch: 1, Dests: 1, AckMenu: onlyOK, Stop: "stopall"}, 2, 3)
+		both(flowParams{Sources: 1, Records: 2, Batch: 1, Dests: 2, AckMenu: []string{"ok", "defer"}, Stop: "stopall"}, 2, 3)
 	}
 	return out
 }
@@ -182,6 +199,8 @@ func preemptScenariosFor(prop string) []scn {
 	case "C02":
 		v1(flowParams{Sources: 1, Records: 2, Batch: 1, Dests: 1, AckMenu: onlyOK, Stop: "stopwait", Bundle: 2}, 1, 2)
 		v2(flowParams{Sources: 1, Records: 2, Batch: 1, Dests: 1, AckMenu: onlyOK, Stop: "stopwait", Bundle: 2}, 1, 2)
+		// a flush in flight, a later ack in the batch, and the connectors of a force-stopped run racing for the persister
+		v1(flowParams{Sources: 1, Records: 3, Batch: 1, Dests: 1, AckMenu: onlyOK, Stop: "force", Bundle: 2, LateCommit: true, PointOnly: []string{"persister.go"}}, 2, 2)
 	case "C11":
 		v1(flowParams{Sources: 1, Records: 1, Batch: 1, Dests: 1, AckMenu: onlyOK, Ctl: []string{"stop", "start", "stopwait"}}, 1, 2)
 		v2(flowParams{Sources: 1, Records: 1, Batch: 1, Dests: 1, AckMenu: onlyOK, Ctl: []string{"stop", "start", "stopwait"}}, 1, 2)
